@@ -40,7 +40,7 @@ _EXH_TS = [-math.inf, -1.0, gen.down(0.0), 0.0, gen.up(0.0), 0.5, gen.down(1.0),
 
 
 def n_cases(tier):
-    return 400 if tier == "quick" else 30000 + len(_EXH)
+    return 4000 if tier == "quick" else 32000 + len(_EXH)
 
 
 def gen_one(rng, i, tier):
